@@ -10,7 +10,7 @@ CHECKS = {
  "C01": C("Coq proof: verified rewrite-step checker (rule_ok_sound, step_in_context_sound) + OR-factoring + translation validation of every logged real rewrite step; optimized-vs-unoptimized differential on generated programs",
           "Theorems over the plan language of coq/Plan.v: every rewrite step accepted by the verified checker preserves the value of the whole plan on all inputs and never turns a defined query into an error; every _simplify_up/_simplify_down step of the fragment logged from the real optimizer is exported and fed to the extracted checker on every run (unjustified step = broken tie, then the two plans are executed to find a failing input). Partial: rule families outside the fragment are covered by the differential only.",
           "den of Plan.v models pandas on integer-valued data with missing values.", "DESIGN.md section 6 C01"),
- "C03": C("Coq proof: or_factoring_sound (all And/Or trees, Kleene 3-valued), dnf_sound / refuted corner, filter-squash schema S10; exhaustive-in-bound correspondence of rewrite_filters; scenario grid vs pandas",
+ "C03": C("Coq proof: or_factoring_sound (all And/Or trees, Kleene 3-valued), dnf_sound / refuted corner, filter-squash schema S10, T-GEN obligation filter_flags_reviewed over the regenerated class table; exhaustive-in-bound correspondence of rewrite_filters; scenario grid vs pandas",
           "OR-factoring proved for every predicate tree and every three-valued valuation and compared exhaustively (all trees up to 4/5 leaves) with the real rewrite_filters; reader filters in DNF proved equal to pandas for !=-free predicates (the != corner is a proved refutation = known finding D7); filter squashing validated step-by-step by the verified checker; filters crossing every operator kind x predicate x consumer x nulls and the full join table are compared with pandas.",
           "Structural equality stands for _name equality (C08).", "DESIGN.md section 6 C03"),
  "C04": C("Coq proof: projection-pushdown schemas S1-S9 of the verified step checker (values, labels, order, definedness) + schema_sound; translation validation of logged steps; scenario grid and widening differential",
@@ -19,13 +19,13 @@ CHECKS = {
  "C05": C("Coq proof: determinacy / progress / complete_runs_agree over arbitrary dependency-respecting schedules + disk_route; per-graph certificates by verified wf_check; randomized and adversarial schedules with argument fingerprints on the real graphs",
           "Determinacy and deadlock-freedom are proved for every well-formed graph and every schedule; the hypothesis (pure task functions) is observed on the real system: each workload graph is executed under FIFO/LIFO/reverse/random topological orders with fingerprints of every task argument before and after the call, and under the threaded scheduler with up to 16 threads.",
           "Real thread interleavings, the GIL, partd I/O: observed only.", "DESIGN.md section 6 C05"),
- "C06": C("Coq proof (partial): length push-down schema S13, partition counts of repartition layers, divisions lemmas (Divisions.v); differential: reported npartitions/divisions/lengths vs every computed partition",
-          "Divisions/npartitions of ~35 derivations x 4 index dtypes (duplicates straddling borders) x partitionings and of every variable of generated programs are compared, at logical/optimized/fused stage, with the index range and count of each computed partition; len/shape/size from metadata vs computed; theorems cover the pure division-arithmetic rules.",
-          "sorted_division_locations (dask) is an oracle.", "DESIGN.md section 6 C06"),
+ "C06": C("Coq proof (partial: merge, groupby, set_index divisions are outside the model): truthfulness of the reported divisions preserved by every modelled derivation (partition selections, partitionwise operators, fused reads, repartition-to-fewer, head/tail, concat) for all divisions/partitions/selections, refutations of the pre-fix formulas, length push-down schema S13, repartition partition counts; T-GEN obligations (no raw operand _divisions() call, length-preserving flags); T-LAYER correspondence of the real _divisions() formulas with the extracted model; differential: reported npartitions/divisions/lengths vs every computed partition at 5 plan stages",
+          "19 theorems in coq/PropC06.v over Divisions.v (truthful = the property's own statement); the real Partitions/PartitionsFiltered/BlockwiseHead/Head/Tail/RepartitionToFewer/Concat/FusedIO _divisions() are compared with the extracted model on ~1200 generated (divisions, selection/boundaries/operands) cases per run, a disagreement is tested on the computed partitions with the verified truthfulb; divisions/npartitions of ~60 derivations x 4 index dtypes (duplicates straddling borders) x partitionings, the same derivations on partition selections, index merges against single-partition frames, presorted pieces, and every variable of generated programs are compared at logical/simplified/lowered/optimized/fused stage with the index range and count of each computed partition; len/shape/size from metadata vs computed.",
+          "sorted_division_locations (dask) is an oracle; merge/groupby/set_index divisions are covered by the differential only.", "DESIGN.md section 6 C06"),
  "C07": C("Coq proof: schema_sound and schema preservation of every accepted rewrite step (Plan.v); differential: _meta vs each computed partition on dtype mixes incl. empty / all-null partitions",
           "For the fragment: the static schema equals the schema of the computed value and optimization never changes it (proved). For everything else: container kind, labels, order, names and dtype kinds of _meta vs every computed partition and the final result for ~65 derivations over int/float/bool/str/category/datetime columns, at every stage.",
           "_meta derivation by running pandas on stand-ins is not modelled.", "DESIGN.md section 6 C07"),
- "C09": C("Coq proof: wf_check soundness (closed, acyclic, unique keys, outputs computable) as per-graph certificate; pairwise layer conflicts, planner-object scan, serialization guard on every real graph",
+ "C09": C("Coq proof: wf_check soundness (closed, acyclic, unique keys, outputs computable) as per-graph certificate; pairwise layer conflicts (also on the C08 catalogue and on two variants of one operation in one graph), planner-object scan, serialization guard on every real graph",
           "Every graph of generated programs x 6 stages plus imported / partition-filtered / nested-fused sources is exported with a candidate topological order and certified by the extracted verified wf_check; layers of all expressions are compared pairwise for conflicting tasks under one key; task tuples are scanned for expression/collection objects and pickled under dask-expr-no-serialize.",
           "Key extraction from task tuples follows dask.core semantics (harness/graphs.py).", "DESIGN.md section 6 C09"),
  "C10": C("Coq proof (tree_layer_correct, unbounded in partitions and split_every; staged_route unbounded in max_branch) + exhaustive-in-bound layer correspondence + knob-grid differential",
@@ -49,13 +49,13 @@ CHECKS.update({
  "C02": C("Coq proof: partition-independence theorems (tree reductions for every partitioning and split_every, shuffle co-location, repartition/alignment plans) + exhaustive enumeration of ALL 2^(n-1) cuts of the input (known/unknown divisions, empty partitions, independent cuts of both inputs) vs pandas",
           "Theorems are universally quantified over the list of partitions (any count, boundaries, empty ones). On the real system ~40 single-input and 13 two-input operator families are computed for every cut of a 6-row (resp. 5x4-row) table, with known and unknown divisions and with empty partitions, and compared with pandas on the concatenated input; explicit refusals (ValueError about divisions) are accepted, silent differences are not. Partial: families whose partition logic is pandas code are covered by the sweep only.",
           "pandas is the oracle.", "DESIGN.md section 6 C02"),
- "C08": C("Coq proof: name_collision_iff (given a collision-free fixed-width token) + reflective obligation heads_unambiguous over the class table regenerated from the source on every run; observation across interpreters / hash seeds / construction orders",
+ "C08": C("Coq proof: name_collision_iff (given a collision-free fixed-width token) + reflective obligation heads_unambiguous over the class table regenerated from the source on every run; observation across interpreters / hash seeds / construction orders; task keys compared across catalogue queries",
           "The class table (357 classes: name head, arity, flags) is regenerated from /repo by introspection+ast on every run and the obligation that no two classes share a static head and arity outside the reviewed list is re-proved by computation; names of every node and all graph keys of a 75-query catalogue are compared across fresh interpreters with different PYTHONHASHSEED, permuted construction order and interleaved unrelated queries; distinct queries / single-parameter variations / different data must give distinct names.",
           "tokenize being deterministic and collision-free is assumed (hypotheses tok_inj, tok_len).", "DESIGN.md section 6 C08"),
  "C11": C("Coq proof (partial): output-subset selection of every shuffle implementation (staged_route / simple_route for arbitrary subsets), truthful divisions of partition selections / head / tail; differential: partitions / get_partition / to_delayed / head / tail vs the computed partitions for 12 source kinds x 8 operation chains x 9 index sets",
           "Every offline source kind (in-memory, array, from_map, delayed, imported graph, legacy, csv, parquet x2, timeseries) x chains with broadcast operands x single/slice/reordered/repeated index sets: the selected partitions equal the corresponding partitions of the computed collection; head(n, npartitions=k) / tail(n) equal the first/last rows; shuffles, hash and broadcast joins with output subsets; sorted heads.",
           "Known finding D22 (head/tail over a fused multi-file parquet read) is replayed and reported as KNOWN-FINDING.", "DESIGN.md section 6 C11"),
- "C15": C("Coq proof: lru_transparent / fail_atomic (any capacity, any history) over the op-for-op model of class LRU + exhaustive-in-bound correspondence with the real class; session histories vs fresh-interpreter baselines",
+ "C15": C("Coq proof: lru_transparent / fail_atomic (any capacity, any history) over the op-for-op model of class LRU, T-GEN obligation state_free_table + exhaustive-in-bound correspondence with the real class; session histories vs fresh-interpreter baselines",
           "The LRU model equals the real class on ALL operation sequences up to length 4/5 over 3 keys and capacities 1-3; random session histories (build / optimize / compute / discard+gc / injected failures / cache eviction by 13 extra set_index queries / dataset rewrite) over a pool of 26 queries are compared observation by observation with the same query alone in a fresh interpreter.",
           "GC timing and file-system mtime granularity are runtime behaviour (observed).", "DESIGN.md section 6 C15"),
  "C16": C("Coq proof: state_free_table (reflective, over the class table regenerated from the source: no graph/meta/divisions method reads process-global mutable state without fallback) + cache transparency; pickle round trip into a fresh interpreter",
